@@ -5,6 +5,7 @@ import PC.Drv.Sup
 import PC.Drv.Output
 import PC.Drv.Env
 import PC.Drv.Replica
+import PC.Drv.Update
 /-! `pcdriver <component>`: reads protocol lines on stdin, prints `model ||| verdict` per line. -/
 open PC.Drv
 
@@ -22,4 +23,5 @@ def main (args : List String) : IO UInt32 := do
   | ["env"] => loop PC.Drv.Env.step stdin stdout (); return 0
   | ["replica"] => loop PC.Drv.Replica.replicaStep stdin stdout (); return 0
   | ["scale"] => loop PC.Drv.Replica.scaleStep stdin stdout {}; return 0
+  | ["update"] => loop PC.Drv.Update.step stdin stdout {}; return 0
   | _ => IO.eprintln "usage: pcdriver <component>"; return 2
